@@ -943,6 +943,9 @@ fn content_len(ctx: &Ctx, by: &By) -> Option<usize> {
 /// `usize::MAX - 1` as the first buffer size: one `read_exact` of the whole entry first (a
 /// runtime's `read_exact` re-offers one partly filled buffer until it is full).
 const EXACT: usize = usize::MAX - 1;
+/// One read, then `check()` at once / then the reader is dropped without a check.
+const EARLY_CHECK: usize = usize::MAX - 2;
+const DROP_EARLY: usize = usize::MAX - 3;
 
 fn read_all_sync<R: Read>(r: &mut R, bufs: &[usize]) -> std::io::Result<Vec<u8>> {
     let mut out = Vec::new();
@@ -1175,6 +1178,24 @@ fn do_sync(ctx: &Ctx, op: &Op) -> Out {
             };
             let mut head = Vec::new();
             let mut bufs = &bufs[..];
+            if let Some(&m) = bufs.first() {
+                if m == EARLY_CHECK || m == DROP_EARLY {
+                    // one read, then the check at once — or no check at all
+                    let mut one = vec![0u8; bufs.get(1).copied().unwrap_or(7).clamp(1, 1 << 20)];
+                    let n = match r.read(&mut one) {
+                        Ok(n) => n,
+                        Err(e) => return io_out(e),
+                    };
+                    if m == DROP_EARLY {
+                        drop(r);
+                        return bytes_out(&one[..n]);
+                    }
+                    return match r.check() {
+                        Ok(_) => bytes_out(&one[..n]),
+                        Err(e) => err_out(e),
+                    };
+                }
+            }
             if bufs.first() == Some(&EXACT) {
                 bufs = &bufs[1..];
                 if let Some(n) = content_len(ctx, by) {
@@ -1282,6 +1303,23 @@ async fn do_async(ctx: &Ctx<'_>, op: &Op) -> Out {
             };
             let mut head = Vec::new();
             let mut bufs = &bufs[..];
+            if let Some(&m) = bufs.first() {
+                if m == EARLY_CHECK || m == DROP_EARLY {
+                    let mut one = vec![0u8; bufs.get(1).copied().unwrap_or(7).clamp(1, 1 << 20)];
+                    let n = match r.read(&mut one).await {
+                        Ok(n) => n,
+                        Err(e) => return io_out(e),
+                    };
+                    if m == DROP_EARLY {
+                        drop(r);
+                        return bytes_out(&one[..n]);
+                    }
+                    return match r.check() {
+                        Ok(_) => bytes_out(&one[..n]),
+                        Err(e) => err_out(e),
+                    };
+                }
+            }
             if bufs.first() == Some(&EXACT) {
                 bufs = &bufs[1..];
                 if let Some(n) = content_len(ctx, by) {
